@@ -126,7 +126,7 @@ def engine_selftest() -> int:
     st2 = c3.must_state({c3.node_of(f3.body[0])}, {kill}, set())
     expect("must_state (neg): without the flush the fact does not hold", st2[append_x] is False)
 
-    # --- A-NORM: trivial helper inlined, condition temporary propagated; a multi-statement helper is left alone
+    # --- A-NORM: trivial helper inlined, condition temporary propagated; a helper that returns from inside a loop is left alone
     from sa.normalise import normalise
 
     t = ast.parse(textwrap.dedent(
@@ -135,8 +135,10 @@ def engine_selftest() -> int:
             return a.find(b) < 0
 
         def _two(a):
-            a = a + 1
-            return a
+            for x in a:
+                if x:
+                    return x
+            return None
 
         def g(s, k):
             c = _h(s, k)
@@ -148,7 +150,7 @@ def engine_selftest() -> int:
     stats = normalise(t)
     gsrc = ast.unparse(t.body[2])
     expect("normalise: helper inlined and temporary propagated", "if s.find(k) < 0:" in gsrc and "c =" not in gsrc and stats["helpers_inlined"] == 1)
-    expect("normalise (neg): multi-statement helper kept", "_two(k)" in gsrc)
+    expect("normalise (neg): helper with a return inside a loop kept", "_two(k)" in gsrc)
 
     # --- A-FRESH on a scratch package: a per-item verdict read in the next iteration is reported, a latch is not
     import shutil
